@@ -39,8 +39,8 @@ def _rank(draw, mn, hi=3):
 
 @st.composite
 def cp_case(draw, orders=(2, 3, 4), kinds=xi.KINDS_ALL, inits=("svd", "random", "user"), iters=ITERS,
-            tols=(1e-14, 1e-2), opts=None, max_rank=3):
-    X = draw(xi.tensor_enc(orders=orders, kinds=kinds))
+            tols=(1e-14, 1e-2), opts=None, max_rank=3, scales=None):
+    X = draw(xi.tensor_enc(orders=orders, kinds=kinds, scales=scales))
     c = {"X": X, "rank": _rank(draw, min(X["s"]), max_rank), "init": draw(xi.init_spec(inits)),
          "n_iter": draw(st.sampled_from(list(iters))), "tol": draw(st.sampled_from(list(tols)))}
     if opts:
@@ -133,7 +133,8 @@ def parafac2_case(draw, group, iters=ITERS, tols=(1e-14, 1e-2), nn_choices=([0],
         kinds = ("nonneg", "pf2_noise", "pf2_nonneg", "normal")
     else:
         kinds = ("normal", "nonneg", "pf2_noise", "int")
-    X = draw(xi.slices_enc(kinds=kinds))
+    # line-search groups also draw a data scale (||X|| << 1 and >> 1): acceptance tests mix absolute and relative errors
+    X = draw(xi.slices_enc(kinds=kinds, scales=xi.SCALES if group.startswith("linesearch") else None))
     hi = min(min(X["J"]), X["K"], 3)                  # P_i needs J_i >= rank, the assertion rank <= K
     rank = draw(st.integers(1, hi))
     if group == "exactfit":
@@ -363,7 +364,7 @@ def subchecks(tier):
     # --- parafac -----------------------------------------------------------
     P = xi.Parafac()
     groups = {"plain": dict(orders=(2, 3, 4)), "normalize": dict(orders=(3, 4)), "normalize_o2": dict(orders=(2,)),
-              "linesearch": dict(orders=(2, 3, 4), iters=[3, 7, 8, 9, 12, 12]), "sparsity": dict(orders=(2, 3, 4))}
+              "linesearch": dict(orders=(2, 3, 4), iters=[3, 7, 8, 9, 12, 12, 17, 24], scales=xi.SCALES), "sparsity": dict(orders=(2, 3, 4))}
     for g, kw in groups.items():
         strat = cp_case(opts=parafac_opts(g), **kw)
         add(f"parafac/{g}/callback", strat, o_callback(P), quick=80, thorough=400)
